@@ -4,6 +4,7 @@ import Monorail.Driver.C03
 import Monorail.Driver.C11
 import Monorail.Driver.Exec
 import Monorail.Driver.Store
+import Monorail.Driver.Log
 open Lean Monorail.Driver
 
 def dispatch (j : Json) : Except String Json := do
@@ -15,6 +16,7 @@ def dispatch (j : Json) : Except String Json := do
   | "c11" => handleC11 j
   | "exec" => handleExec j
   | "store" => handleStore j
+  | "reader" => handleReader j
   | "execcheck" => handleExecCheck j
   | "groups" => handleGroups j
   | "ping" => pure (Json.mkObj [("pong", true)])
